@@ -527,6 +527,48 @@ example : (execF true (initSys 0) (failActs.take 2)).node.term = 0
     ∧ (execF true (initSys 0) failActs).ghost.votes = [(10, 0), (3, 2)]
     ∧ (⟨3, 10, 77⟩ : LogEntry) ∈ (execF true (initSys 0) failActs).ghost.acked := by decide
 
+/-! ### log compaction (`truncate_log`, `log_base_index`)
+
+  Compaction (a leader's `tick` → `try_auto_compact` → `perform_compaction` → `truncate_log`, or
+  `with_store`'s re-truncation) drains the head of the IN-MEMORY log and moves `log_base_index`; it writes
+  nothing to the WAL.  In the model `Node.log` stays the whole log and the node's `persistent.log` is
+  `log.drop base`; `compact` is an event of `step` (so every theorem above quantifies over histories with
+  compactions anywhere), handlers skip entries at or below `base` and treat a compacted `prev_log_index`
+  as consistent, as the code does. -/
+
+/-- **Compaction never costs a restart anything**: after any history with compactions, failures and
+    crashes, the log a restart recovers is the whole log, of which the node's in-memory log is the part
+    beyond `log_base_index`; and compaction itself appends no record. -/
+theorem compacted_node_restarts_with_its_whole_log (id : Nat) (acts : List ActF) :
+    let σ := execF true (initSys id) acts
+    let r := restart id (fromEntries σ.dur)
+    r.log = σ.node.log ∧ (σ.node.log.drop σ.node.base) <:+ r.log ∧ r.base = 0
+      ∧ ∀ i, recs (step σ.node (.compact i)).micros = [] := by
+  have h := all_obligations_survive_wal_failures id acts
+  refine ⟨h.2.2.2.2.2.symm, ?_, rfl, fun i => rfl⟩
+  rw [← h.2.2.2.2.2]
+  exact List.drop_suffix _ _
+
+/-- a follower with entries 1..5, trailing = 1: compaction at snapshot index 4 drains 3 entries from memory
+    (base 3); a heartbeat whose prev (2) is compacted is accepted, an entry at a compacted index (3) is
+    skipped even though its term differs, entry 6 is appended and logged; a restart has all six -/
+def compactDemo : List ActF :=
+  [.ev (.appendEntries 1 2 0 0 [(1, 11), (1, 12), (1, 13), (1, 14), (1, 15)]),
+   .ev (.compact 4),
+   .ev (.appendEntries 2 3 2 9 [(2, 99)]),
+   .ev (.appendEntries 2 3 5 1 [(2, 16)])]
+example : (execF true { node := { id := 0, trailing := 1 } } (compactDemo.take 2)).node.base = 3
+    ∧ ((execF true { node := { id := 0, trailing := 1 } } (compactDemo.take 2)).node.log.drop 3).length = 2
+    ∧ (step (execF true { node := { id := 0, trailing := 1 } } (compactDemo.take 2)).node
+          (.appendEntries 2 3 2 9 [(2, 99)])).reply = .append 2 true 3
+    ∧ recs (step (execF true { node := { id := 0, trailing := 1 } } (compactDemo.take 2)).node
+          (.appendEntries 2 3 2 9 [(2, 99)])).micros = [.termAndVote 2 none]
+    ∧ (execF true { node := { id := 0, trailing := 1 } } compactDemo).node.log.length = 6
+    ∧ (restart 0 (fromEntries (execF true { node := { id := 0, trailing := 1 } } compactDemo).dur)).log.length = 6 := by
+  decide
+/-- with the default `snapshot_trailing_logs` (100) the same compaction drains nothing -/
+example : (execF true (initSys 0) (compactDemo.take 2)).node.base = 0 := by decide
+
 /-! ### elections started by messages
 
   `start_election` is also reached from `handle_pre_vote_response` (a quorum of pre-votes) and from
